@@ -155,8 +155,12 @@ CHECKS = {
              "path/stream input, and TLC checks that full-precision digests of all results and the .pka text are equal within each "
              "history and to the reference run of the same key; every (content, option) key is also repeated systematically. One "
              "in-process history is recorded stage by stage and each call's event sequence must be a behaviour of the stage machine "
-             "Pipeline.tla (folded transition function, binding self-test with corrupted traces) and identical for repeated calls.",
-        design="5/C03, 11.7"),
+             "Pipeline.tla (folded transition function, binding self-test with corrupted traces) and identical for repeated calls. "
+             "MC_Display.tla models the -d display of a coupled system (all pairs probed, all 7 sets of pairs swapped "
+             "cumulatively): TLC checks that the result does not depend on the iteration order of the set of identity-hashed "
+             "groups and refutes the mechanism that uses the set's own order (F12); every emitted (lists, order) is replayed "
+             "through the real print_out_swaps.",
+        design="5/C03, 11.4, 11.7"),
 }
 
 NOT_APPLICABLE = {}
